@@ -503,4 +503,7 @@ def replay(mod, path):
     print("case : %s\nimpl : %s\nmodel: %s" % (line, io, mo))
     why = mod.oracle(line, io)
     print("oracle: %s" % (why or "holds"))
-    return 1 if why or io != mo else 0
+    compare = getattr(mod, "compare", lambda line, a, b: a == b)
+    same = (not getattr(mod, "HAS_MODEL", True)) or compare(line, io, mo)
+    print("correspondence: %s" % ("agree" if same else "DISAGREE"))
+    return 1 if why or not same else 0
